@@ -64,3 +64,18 @@ impl_view_dump!(
     "protocols/valve/types.rs",
     "ServerPlayer"
 );
+
+impl_view_dump!(
+    gamedig::protocols::quake::Response<gamedig::protocols::quake::one::Player>,
+    "protocols/quake/types.rs",
+    "Response",
+    "protocols/quake/one.rs",
+    "Player"
+);
+impl_view_dump!(
+    gamedig::protocols::quake::Response<gamedig::protocols::quake::two::Player>,
+    "protocols/quake/types.rs",
+    "Response",
+    "protocols/quake/two.rs",
+    "Player"
+);
